@@ -49,9 +49,10 @@ class SnapScheduler(execsim.Scheduler):
         self.snap_at = snap_at
         self.count = 0
 
-    def _maybe_snap(self):
+    def _maybe_snap(self, idle=False):
         self.count += 1
-        if self.snap_at is not None and self.count == self.snap_at and ROOT and SNAP_HOOK:
+        hit = self.snap_at is not None and (self.count == self.snap_at or (self.snap_at == -1 and idle and not SNAPS))
+        if hit and ROOT and SNAP_HOOK:
             SNAPS.append(SNAP_HOOK[0](ROOT[0]))
 
     def at_emit(self):
@@ -59,7 +60,7 @@ class SnapScheduler(execsim.Scheduler):
         super().at_emit()
 
     def at_sleep(self, *a):
-        self._maybe_snap()
+        self._maybe_snap(idle=True)  # snap_at = -1: the first idle point (something is out, nothing left to deliver)
         super().at_sleep(*a)
 
 
@@ -182,6 +183,8 @@ def make_child(spec):
         n.executor = execsim.CtlExecutor(SCHED[0], "ctl")  # a live executor object (not part of any state)
     elif spec.get("exec") == "ctli":
         n.executor = (CtlByInstruction, (), {})  # instructions: survive the round trip
+    if spec.get("serialize"):
+        n._serialize_result = True  # the job leaves its result in a file: a broken process can be resumed
     return n
 
 
